@@ -1608,7 +1608,9 @@ chop_more:
 		p->six += slen;
 
 	proc:
-		if (p->six && (res = _ical_proc(p)) == NULL) {
+		if (!p->six || (res = _ical_proc(p)) == NULL) {
+			/* nothing for the caller in this line (it may have
+			 * been empty), the buffer may hold more though */
 			goto chop_more;
 		}
 	}
